@@ -82,7 +82,7 @@ def run_cases(prop, cases, impl_extra=""):
 def scan_interior_mutability():
     """supporting evidence for operand purity (not a proof): interior mutability and unsafe blocks in /repo/src"""
     hits = []
-    pat = re.compile(r"\b(Cell|RefCell|Mutex|RwLock|Atomic\w+|UnsafeCell|static\s+mut|unsafe)\b")
+    pat = re.compile(r"\b(Cell|RefCell|OnceCell|OnceLock|LazyCell|LazyLock|Lazy|Once|Mutex|RwLock|Atomic\w+|UnsafeCell|thread_local|lazy_static|static\s+mut|unsafe)\b")
     for d, _, fs in os.walk("/repo/src"):
         for f in fs:
             if not f.endswith(".rs"): continue
